@@ -445,7 +445,7 @@ func runeConstantsIn(it *Interp, fd *ast.FuncDecl) []rune {
 // HasString/HasPush, so one AST and one -noast instantiation plus the
 // checked-in front end are evaluated.
 func rtEvalHere(v *rtView) bool {
-	if v.in.repo != nil {
+	if v.in.repo != nil || v.in.canonOf != nil {
 		return true
 	}
 	b := v.in.Cfg.Bools
